@@ -10,6 +10,7 @@ package httpserver
 import (
 	"bytes"
 	"compress/gzip"
+	"compress/zlib"
 	"encoding/json"
 	"fmt"
 	"io"
@@ -37,6 +38,15 @@ type c03Gunzip struct {
 	OK  bool   `json:"ok"`
 }
 
+// c03Peeled: a body after undoing, from the outermost inwards, the codings of its
+// Content-Encoding that can be undone (gzip, x-gzip, deflate, identity); Rest = the codings
+// left (innermost first), OK=false when the data does not decode as labelled.
+type c03Peeled struct {
+	OK   bool     `json:"ok"`
+	Rest []string `json:"rest"`
+	Data []byte   `json:"data"`
+}
+
 type c03Target struct {
 	OK    bool   `json:"ok"` // url.ParseRequestURI accepted it
 	Path  string `json:"path"`
@@ -54,8 +64,11 @@ type c03Oracle struct {
 	OutEsc     string      `json:"outEsc"`
 	OutEscP    c03Target   `json:"outEscP"`
 	HostIsName bool        `json:"hostIsName"` // net.ParseIP(server host) == nil
-	Gzip       [][2][]byte `json:"gzip"`       // x -> readers.GZipCompressReader(x)
+	Gzip       [][2][]byte `json:"gzip"`       // x -> gzip(x)
 	Gunzip     []c03Gunzip `json:"gunzip"`     // x -> gzip.Reader(x)
+	Inflate    []c03Gunzip `json:"inflate"`    // x -> zlib.Reader(x) (the "deflate" coding)
+	ReqPeel    c03Peeled   `json:"reqPeel"`    // the client's body with the codings its label names undone
+	RespPeel   c03Peeled   `json:"respPeel"`   // the backend's body, likewise
 }
 
 // c03Edit is the `header` section of the ResponseAdaptor (histories only).
@@ -125,8 +138,9 @@ type c03Obs struct {
 	Kind     string      `json:"kind"`
 	Declared int64       `json:"declared"`
 	FrameOK  bool        `json:"frameOK"`
-	Dec      []byte      `json:"dec"`   // body with its Content-Encoding label undone
+	Dec      []byte      `json:"dec"`   // body with the known codings of its Content-Encoding undone
 	DecOK    bool        `json:"decOK"` //
+	Rest     []string    `json:"rest"`  // codings left
 
 	BCount   int         `json:"bcount"` // complete requests the backend received
 	BMethod  string      `json:"bmethod"`
@@ -138,6 +152,7 @@ type c03Obs struct {
 	BKind    string      `json:"bkind"`
 	BDec     []byte      `json:"bdec"`
 	BDecOK   bool        `json:"bdecOK"`
+	BRest    []string    `json:"brest"`
 	Panic    string      `json:"panic"`
 }
 
@@ -176,25 +191,70 @@ func c03CanonHeaders(hs [][2]string) [][2]string {
 	return out
 }
 
-func c03Label(hs [][2]string) string {
-	for _, kv := range hs {
-		if textproto.CanonicalMIMEHeaderKey(kv[0]) == "Content-Encoding" {
-			return kv[1]
-		}
+func c03InflateOf(b []byte) ([]byte, bool) {
+	zr, err := zlib.NewReader(bytes.NewReader(b))
+	if err != nil {
+		return nil, false
 	}
-	return ""
+	out, err := io.ReadAll(zr)
+	if err != nil {
+		return nil, false
+	}
+	return out, true
 }
 
-// c03Decode undoes the Content-Encoding label (only gzip is understood).
-func c03Decode(hs [][2]string, body []byte) ([]byte, bool) {
-	l := c03Label(hs)
-	if l == "" {
-		return body, true
+func c03Deflate(b []byte) []byte {
+	var w bytes.Buffer
+	zw := zlib.NewWriter(&w)
+	zw.Write(b)
+	zw.Close()
+	return w.Bytes()
+}
+
+// c03Peel undoes the codings named by the Content-Encoding field lines of hs.
+func c03Peel(hs [][2]string, body []byte) (p c03Peeled) {
+	var toks []string
+	for _, kv := range hs {
+		if textproto.CanonicalMIMEHeaderKey(kv[0]) != "Content-Encoding" {
+			continue
+		}
+		for _, t := range strings.Split(kv[1], ",") {
+			if t = strings.ToLower(textproto.TrimString(t)); t != "" {
+				toks = append(toks, t)
+			}
+		}
 	}
-	if l == "gzip" {
-		return c03GunzipOf(body)
+	p.Data, p.Rest = body, []string{}
+	for len(toks) > 0 {
+		t := toks[len(toks)-1]
+		var ok bool
+		switch t {
+		case "gzip", "x-gzip":
+			p.Data, ok = c03GunzipOf(p.Data)
+		case "deflate":
+			p.Data, ok = c03InflateOf(p.Data)
+		case "identity":
+			ok = true
+		default:
+			p.OK, p.Rest = true, toks
+			return
+		}
+		if !ok {
+			return c03Peeled{Rest: []string{}}
+		}
+		toks = toks[:len(toks)-1]
 	}
-	return nil, false
+	p.OK = true
+	if p.Data == nil {
+		p.Data = []byte{}
+	}
+	return
+}
+
+// c03Decode: the peeled data (kept for the observation record)
+func c03Decode(hs [][2]string, body []byte) ([]byte, bool, []string) {
+	p := c03Peel(hs, body)
+	return p.Data, p.OK, p.Rest
 }
 
 func c03FillOracle(in *c03In) { c03FillOracleExt(in, nil) }
@@ -265,6 +325,12 @@ func c03FillOracleExt(in *c03In, extra [][]byte) {
 		for _, b := range append([][]byte(nil), set...) {
 			if g, ok := c03GunzipOf(b); ok {
 				add(g)
+				if z, ok := c03InflateOf(g); ok { // "deflate, gzip"
+					add(z)
+				}
+			}
+			if z, ok := c03InflateOf(b); ok {
+				add(z)
 			}
 		}
 		for _, b := range append([][]byte(nil), set...) {
@@ -278,7 +344,12 @@ func c03FillOracleExt(in *c03In, extra [][]byte) {
 		o.Gzip = append(o.Gzip, [2][]byte{b, c03Gzip(b)})
 		g, ok := c03GunzipOf(b)
 		o.Gunzip = append(o.Gunzip, c03Gunzip{In: b, Out: g, OK: ok})
+		if z, ok := c03InflateOf(b); ok {
+			o.Inflate = append(o.Inflate, c03Gunzip{In: b, Out: z, OK: true})
+		}
 	}
+	o.ReqPeel = c03Peel(in.Headers, in.ReqBody)
+	o.RespPeel = c03Peel(in.RespHeaders, in.RespBody)
 }
 
 // ---------------------------------------------------------------------------
@@ -403,7 +474,7 @@ func c03Serve(fr *c07Front, be *c07Backend, in *c03In) (obs c03Obs) {
 	obs.Got, obs.Status, obs.Kind, obs.Declared, obs.FrameOK = r.Got, r.Status, r.Kind, r.Declared, r.FrameOK
 	obs.Headers = c03CanonHeaders(r.Headers)
 	obs.Body = append([]byte{}, r.Body...)
-	obs.Dec, obs.DecOK = c03Decode(r.Headers, r.Body)
+	obs.Dec, obs.DecOK, obs.Rest = c03Decode(r.Headers, r.Body)
 	_, port, _ := net.SplitHostPort(be.Addr())
 	for _, s := range seen {
 		if !s.Complete {
@@ -430,7 +501,7 @@ func c03Serve(fr *c07Front, be *c07Backend, in *c03In) (obs c03Obs) {
 		obs.BHeaders = c03CanonHeaders(rest)
 		obs.BBody = append([]byte{}, s.Body...)
 		obs.BKind = s.Kind
-		obs.BDec, obs.BDecOK = c03Decode(s.Headers, s.Body)
+		obs.BDec, obs.BDecOK, obs.BRest = c03Decode(s.Headers, s.Body)
 	}
 	return
 }
@@ -552,6 +623,73 @@ func c03Text(r *vfRand, n int) []byte {
 	return w.Bytes()[:n]
 }
 
+// c03Encode applies one of the Content-Encoding shapes beyond plain "gzip": other
+// spellings, several codings (one field value or several field lines), identity, deflate,
+// codings nobody on the path understands (they must pass through with their label).
+func c03Encode(r *vfRand, text []byte, hs [][2]string) ([]byte, [][2]string) {
+	return c03EncodeK(r.Intn(12), text, hs)
+}
+
+func c03EncodeK(k int, text []byte, hs [][2]string) ([]byte, [][2]string) {
+	ce := func(vals ...string) [][2]string {
+		for _, v := range vals {
+			hs = append(hs, [2]string{"Content-Encoding", v})
+		}
+		return hs
+	}
+	switch k % 12 {
+	case 0:
+		return c03Gzip(text), ce("GZIP")
+	case 1:
+		return c03Gzip(text), ce("x-gzip")
+	case 2:
+		return c03Gzip(c03Deflate(text)), ce("deflate, gzip")
+	case 3:
+		return c03Gzip(c03Deflate(text)), ce("deflate", "gzip")
+	case 4:
+		return c03Gzip(c03Gzip(text)), ce("gzip, gzip")
+	case 5:
+		return text, ce("identity")
+	case 6:
+		return c03Deflate(text), ce("deflate")
+	case 7:
+		return text, ce("br")
+	case 8:
+		return c03Gzip(text), ce("br, gzip")
+	case 9:
+		return text, ce("gzip, br")
+	case 10:
+		return c03Gzip(text), ce("identity, gzip")
+	default:
+		return c03Gzip(c03Deflate(text)), ce("Deflate,X-GZIP")
+	}
+}
+
+// c03GenLabel: case j of the label schedule: every Content-Encoding shape of c03EncodeK
+// under ResponseAdaptor decompress (buffered, stream), proxy compression, ResponseAdaptor
+// compress, and untouched.
+func c03GenLabel(r *vfRand, j int) (in c03In) {
+	in.Method, in.Host = "GET", "front.test"
+	in.Target = fmt.Sprintf("/label/%d", j)
+	in.Headers = [][2]string{{"X-Trace", "t-1"}, {"Accept-Encoding", "gzip, deflate, br"}}
+	in.ReqEnc, in.SrvHost, in.MinLen = "none", "127.0.0.1", -1
+	in.RespStatus, in.RespEnc, in.RespChunk = 200, r.PickStr("cl", "chunked"), 64
+	text := c03Text(r, r.PickInt(1, 40, 300))
+	in.RespBody, in.RespHeaders = c03EncodeK(j, text, [][2]string{{"Content-Type", "text/plain; charset=utf-8"}})
+	switch (j / 12) % 5 {
+	case 0:
+		in.RS = c03Adapt{On: true, Decompress: true}
+	case 1:
+		in.RS, in.SStream = c03Adapt{On: true, Decompress: true}, true
+	case 2:
+		in.MinLen, in.RespEnc = 0, "chunked"
+	case 3:
+		in.RS = c03Adapt{On: true, Compress: true}
+	}
+	c03FillOracle(&in)
+	return
+}
+
 func c03Size(r *vfRand, minLen int, big int) int {
 	if r.Chance(1, 30) {
 		b := c03Bases()
@@ -617,6 +755,8 @@ func c03Gen(r *vfRand, adv bool) (in c03In) {
 		if r.Chance(1, 6) { // gzip-labelled request body
 			in.ReqBody = c03Gzip(in.ReqBody)
 			in.Headers = append(in.Headers, [2]string{"Content-Encoding", "gzip"})
+		} else if r.Chance(1, 12) {
+			in.ReqBody, in.Headers = c03Encode(r, in.ReqBody, in.Headers)
 		}
 	}
 	in.CStream = r.Chance(1, 4)
@@ -682,9 +822,13 @@ func c03Gen(r *vfRand, adv bool) (in c03In) {
 	if r.Chance(1, 10) {
 		hs = hs[1:] // no Content-Type: net/http sniffs one
 	}
-	if r.Chance(1, 4) { // already gzip-encoded by the backend
-		in.RespBody = c03Gzip(in.RespBody)
-		hs = append(hs, [2]string{"Content-Encoding", "gzip"})
+	if r.Chance(1, 4) || (adv && r.Chance(1, 3)) { // the backend's body carries content codings
+		if r.Bool() && !adv {
+			in.RespBody = c03Gzip(in.RespBody)
+			hs = append(hs, [2]string{"Content-Encoding", "gzip"})
+		} else {
+			in.RespBody, hs = c03Encode(r, in.RespBody, hs)
+		}
 	}
 	in.RespHeaders = hs
 	c03FillOracle(&in)
@@ -915,7 +1059,9 @@ func TestVerifC03E2E(t *testing.T) {
 			continue
 		}
 		var in c03In
-		if i%20 == 7 {
+		if i%20 == 17 {
+			in = c03GenLabel(root.Fork(i), i/20)
+		} else if i%20 == 7 {
 			in = c03GenBoundary(root.Fork(i), i/20)
 		} else {
 			in = c03Gen(root.Fork(i), adv)
